@@ -51,7 +51,7 @@ def step (cfg : Cfg) (st : St) : List String → St × String
       | some h => ({ st with hs := setSlot st.hs s h.reset }, "ok")
       | none => (st, "bad-op")
     | none => (st, "bad-op")
-  | ["groestl", "finreset", slot] =>
+  | ["groestl", "finreset", slot] | ["groestl", "finreset2", slot] =>
     match slot.toNat? with
     | some s =>
       match getSlot st.hs s with
